@@ -18,10 +18,13 @@ META = {
     "design_ref": "DESIGN.md §5 C29",
     "text": "Theorems about a Gallina model of ClauseDB (chain of layers = parent pointers, offsets, redirects, AD compilation): "
             "extending is transparent for every later history of additions (definition lists per predicate equal those of the "
-            "union, order preserved), the parent chain is never written, call nodes resolve to the extended definition "
-            "(depth <= 2), AD group ids are fresh under the repaired rule.  The model is tied to problog/clausedb.py by replaying "
+            "union, order preserved), the parent chain is never written, call nodes of every ancestor resolve to the extended "
+            "definition at any nesting depth (C29_redirect_sound), AD group ids are fresh under group = len(self) and the "
+            "partition of choices into groups is the source-level one (C29_group_ids_fresh, C29_extend_union_groups).  The model "
+            "is tied to problog/clausedb.py by replaying "
             "random histories (facts/rules/ADs on new and existing predicates, nested and sibling extends) through both and "
-            "comparing every layer's node table, heads and redirects and the rendered definition lists; answers and "
+            "comparing every layer's node table, heads and redirects, get_node on every index of every database (object identity) "
+            "and the rendered definition lists; answers and "
             "probabilities of every database are judged against preparing the union program from scratch, and every parent's "
             "answers and tables before vs after.",
     "note": "Trusted: Coq kernel + vm_compute; hand-written model (correspondence is sampled); harness encoders/renderers; "
@@ -96,6 +99,10 @@ def judge(acts):
                 fails.append(("deflist", "definition list of %s/%d seen through the database at depth %d is %r, the statements say %r"
                               % (f, ar, len(n.path()) - 1, got, want)))
                 break
+        # redirect soundness (any depth): calls of every ancestor reach the current definition
+        bad = H.call_resolution_failures(n.db)
+        if bad:
+            fails.append(("callres", "database at depth %d: %s" % (len(n.path()) - 1, bad[0])))
     return fails, eng, nodes
 
 
@@ -145,7 +152,7 @@ def work(item):
             f2, _, n2 = fails, eng, nodes
         feats = features(n2)
         klass = None
-        if all(k == "union" for k, _ in f2):
+        if all(k in ("union", "callres") for k, _ in f2):
             if feats == {K_GROUP}:
                 klass = K_GROUP
             elif feats == {K_NESTED}:
@@ -167,10 +174,14 @@ def work(item):
             for d, n in enumerate(path):
                 defs.append("Definition @A%d : list (sig * list rclause) := %s." % (d, H.cabs_obs(n.db)))
                 anames.append("abs_matches 60 (skipn %d c) @A%d" % (len(path) - 1 - d, d))
-            # + (sampled, not a theorem) redirect soundness at depth <= 2: every call node resolves to the
-            #   current definition of its predicate, seen through the child
+                # get_node of the model vs get_node of the implementation on EVERY index of EVERY database
+                # of the path (any depth: this is where the chained redirect lookup shows)
+                defs.append("Definition @G%d : list (nat * nat) := %s." % (d, H.cget_obs(path[:d + 1])))
+                anames.append("gets_match (skipn %d c) @G%d" % (len(path) - 1 - d, d))
+            # + call resolution on every node of the youngest database at any depth (a theorem now:
+            #   Props.v C29_call_resolves; evaluated as a sanity check of the model on the sampled histories)
             expr = ("let c := run %s @ops root0 in chain_matches c %s && forallb (fun b => b) %s "
-                    "&& (if length c <=? 2 then forallb (call_resolves c) (seq 0 (size c)) else true)"
+                    "&& forallb (call_resolves c) (seq 0 (size c))"
                     % (gmode, H.clist(lnames), H.clist(anames)))
             res["cases"].append({"defs": defs, "expr": expr})
     except ValueError as e:
@@ -201,6 +212,7 @@ def run(ctx):
     ctx.prove("C29/Props.v")
     gmode = H.detect_group_mode(vf.REPO)
     ctx.cov["group_rule_in_code"] = gmode
+    ctx.cov["redirect_lookup_in_code"] = H.detect_redirect_mode(vf.REPO)
     bids = builtin_ids()
     nh = ctx.n(80, 500)
     items = [(ctx.rng.randrange(1 << 30), ctx.rng.choice([4, 8, 12, 16]), gmode, bids) for _ in range(nh)]
